@@ -6,6 +6,8 @@ import Blue.Proofs.BoundsFixed
 import Blue.Proofs.Kvs
 import Blue.Proofs.TrivialMove
 import Blue.Proofs.ExpandClosed
+import Blue.Proofs.NextCompactionMain
+import Blue.Proofs.ConstsTieC01
 /-! # Property C01 — point reads return the latest write, whatever the tree did in between
 
 Property theorems only.  The store is modelled as the list of its components in *search order*
@@ -20,9 +22,26 @@ What is proved: on every state satisfying I1 ∧ I2 the read returns exactly the
 points (with or without GC drops) and trivial moves preserve I2 and, when nothing is dropped,
 every read at every timestamp (`step_*`); the selector's slices (`selector_slices_closed`), the
 trivial move and `expand_compaction` as repaired (`trivial_move_closed`, `expansion_closed`) are
-closed, each from the guarantee its loop establishes (`Selection.Ok`, `Expansion.Ok`).  What is checked per run rather than proved: that the implementation's
-reached states satisfy `invB`, and that every compaction the real selector chose is `closedB` on
-the state it was chosen in (both are evaluated by the driver on the dumped states).
+closed, each from the guarantee its loop establishes (`Selection.Ok`, `Expansion.Ok`).
+
+The selector itself is modelled as a function: `Blue.NextCompaction.nextCompaction` follows
+`Version::next_compaction` path by path (trivial moves, the level-0 hull, the per-file candidates of
+the deeper levels, `compute_bounds`, `find_best_compaction` with its limits, `expand_compaction`,
+`may_choose_compaction` with the compactions in flight, the mandatory rule, the level curve and
+the `f64` score scaling) and is compared with the real choice — levels, key range, input ids in
+order — at every compaction step of every history.  For that function it is proved, for ALL trees
+satisfying the tree invariant `Inv` (files well-formed, levels below level 0 sorted by key, ids
+distinct), all options, all compactions in flight and all floating-point tables, that the modelled
+loops establish `Selection.Ok` / `Expansion.Ok` / the trivial-move side conditions
+(`compute_bounds_establishes_selection_ok`, `expand_candidate_closed`) and hence that whatever it
+returns is closed (`nextCompaction_closed`), keeps I2 (`nextCompaction_keeps_newer_above`), names
+no input of a compaction in flight (`nextCompaction_respects_ongoing`) and respects the file limits
+up to the one-file overshoot of `expand_compaction` (`nextCompaction_within_limits`).
+
+What is checked per run rather than proved: that the implementation's reached states satisfy
+`invB` (and the trees the selector runs on `Blue.NextCompaction.invB`), that the function model
+returns what the real selector returns, and — independently of the model — that every compaction
+the real selector chose is `closedB` on the state it was chosen in.
 `recover` (level reassignment on reopen) does **not** preserve I1/I2 — known finding D-9. -/
 namespace Blue.Props.C01
 open Blue.Spec Blue.Kvs
@@ -101,6 +120,139 @@ theorem open_compaction_stale_read_witness :
     load (pre.map (·.2)) 1 10 = some (1, 9) ∧
     load (kept pre ++ [[(1, 9), (1, 2)]]) 1 10 = some (1, 5) := open_compaction_stale_read
 
+
+/-! ## the selector as a function -/
+
+open Blue.NextCompaction in
+/-- **the loops of `compute_bounds` establish `Selection.Ok`**: on every tree satisfying `Inv`, for
+    every lower level and starting range (for level 0: a range covering level 0, as the hull
+    `next_compaction` passes does), the slices read off the computed bounds are exactly the files
+    meeting ranges that widen with depth and cover what they take — the hypothesis of
+    `selector_slices_closed` -/
+theorem compute_bounds_establishes_selection_ok {t : Tree} (hinv : Inv t) (lower first last upper : Nat)
+    (hhull : lower = 0 → ∀ g ∈ level t 0, first ≤ g.first ∧ g.last ≤ last) (hup : upper < t.length) :
+    (selOf (computeBounds t lower first last) lower upper).Ok (toTL (numLevels t upper)) :=
+  selection_ok (computeBounds_ok hinv lower first last hhull) hup
+
+open Blue.NextCompaction in
+/-- **the loop of `expand_compaction` (repaired) establishes `Expansion.Ok`, and every candidate of
+    `find_best_compaction` is closed**: the slices of levels `lower ..= lower + d` plus whatever
+    `expand_compaction` adds (proved inside via `expansion_closed`) -/
+theorem expand_candidate_closed (o : Opts) {t : Tree} (hinv : Inv t) (lower first last d sz : Nat)
+    (hhull : lower = 0 → ∀ g ∈ level t 0, first ≤ g.first ∧ g.last ≤ last) (hup : lower + d < t.length) :
+    Closed (tagTree t (candOver o t lower (computeBounds t lower first last) d sz)) :=
+  (expand_closed o hinv (computeBounds_ok hinv lower first last hhull) hup sz).1
+
+open Blue.NextCompaction in
+/-- **every compaction the selector returns is closed** on the tree it was chosen in — all trees
+    satisfying `Inv`, all options, all compactions in flight, all floating-point tables -/
+theorem nextCompaction_closed (n : Num) (o : Opts) (t : Tree) (og : List Core) (hinv : Inv t)
+    {c : Core} (h : nextCompaction n o t og = some c) : Closed (tagTree t c) :=
+  Blue.NextCompaction.nextCompaction_closed n o t og hinv h
+
+open Blue.NextCompaction in
+/-- … and therefore keeps "newer above" (I2), whatever outputs the compaction writes -/
+theorem nextCompaction_keeps_newer_above (n : Num) (o : Opts) (t : Tree) (og : List Core) (hinv : Inv t)
+    {c : Core} (h : nextCompaction n o t og = some c)
+    (mems post outs : List (List (Ver Nat)))
+    (hna : NewerAbove ((mems.map (fun m => (false, m)) ++ tagTree t c).map (·.2) ++ post))
+    (hsub : ∀ e ∈ outs.flatten, e ∈ (inputs (mems.map (fun m => (false, m)) ++ tagTree t c)).flatten)
+    (houts : NewerAbove outs) :
+    NewerAbove (kept (mems.map (fun m => (false, m)) ++ tagTree t c) ++ outs ++ post) :=
+  Blue.NextCompaction.nextCompaction_keeps_newer_above n o t og hinv h mems post outs hna hsub houts
+
+open Blue.NextCompaction in
+/-- **the chosen inputs are disjoint from the inputs of every compaction in flight** (whose inputs,
+    as far as they are still in the tree, lie at its levels and inside its key range — which
+    `nextCompaction_inputs_within` proves of every compaction the selector itself returned) -/
+theorem nextCompaction_respects_ongoing (n : Num) (o : Opts) (t : Tree) (og : List Core) (hinv : Inv t)
+    (hog : ∀ g ∈ og, OngoingWf t g) {c : Core} (h : nextCompaction n o t og = some c) :
+    ∀ g ∈ og, ∀ id ∈ c.inputs, id ∉ g.inputs :=
+  Blue.NextCompaction.nextCompaction_respects_ongoing n o t og hinv hog h
+
+open Blue.NextCompaction in
+/-- every input of a returned compaction is a file of the tree at one of its levels, inside its key range -/
+theorem nextCompaction_inputs_within (n : Num) (o : Opts) (t : Tree) (og : List Core) (hinv : Inv t)
+    {c : Core} (h : nextCompaction n o t og = some c) : InputsWithin t c :=
+  Blue.NextCompaction.nextCompaction_inputs_within n o t og hinv h
+
+open Blue.NextCompaction in
+/-- **limits**: at most `max_compaction_files + 1` inputs (`expand_compaction` tests the limit before
+    it adds a file: the bound is reached in the runs), and with the inputs of the compactions in
+    flight fewer than `max_open_files` -/
+theorem nextCompaction_within_limits (n : Num) (o : Opts) (t : Tree) (og : List Core)
+    {c : Core} (h : nextCompaction n o t og = some c) :
+    c.inputs.length ≤ o.maxCompactionFiles + 1
+    ∧ c.inputs.length + (og.map (fun g => g.inputs.length)).sum < o.maxOpenFiles :=
+  Blue.NextCompaction.nextCompaction_within_limits n o t og h
+
+open Blue.NextCompaction in
+/-- the driver's decidable tree-invariant check is sound for `Inv` -/
+theorem tree_invariant_check_sound {t : Tree} (h : Blue.NextCompaction.invB t = true) : Inv t := invB_sound h
+
+open Blue.NextCompaction in
+/-- the `while !fixed_point` loop of `compute_bounds` ends at a fixed point within the model's fuel,
+    on any level whatsoever (sorted or not) -/
+theorem compute_bounds_loop_reaches_fixed_point (lvl : List File) (first last : Nat) :
+    Fixed lvl first last (levelBounds lvl first last) := levelBounds_fixed lvl first last
+
+/-! non-vacuity: a five-level tree (two overlapping files in level 0, three in level 1 under a wide
+    file of level 2, a wide file in level 3, level 4 empty) satisfies `Inv`; the selector's three
+    kinds of answer on it, all by evaluation of the function model:
+    * nothing in flight: the trivial move of the level-3 file;
+    * that move in flight: the level-0 hull merged through levels 0..2 (six inputs, chosen by score);
+    * level 0 at the mandatory threshold: the "clear out for level 0" replacement — the candidate
+      started from the first level-1 file, whose slices are files 3 and 6 and to which
+      `expand_compaction` adds files 4 and 5. -/
+namespace Example
+open Blue.NextCompaction
+
+def mk (id first last size bts : Nat) (vers : List (Nat × Nat)) : File := ⟨id, first, last, size, bts, vers⟩
+
+def tree : Tree :=
+  [[mk 1 2 6 100 10 [(2, 10), (6, 9)], mk 2 4 9 100 12 [(4, 12), (9, 11)]],
+   [mk 3 1 3 100 5 [(1, 5), (3, 4)], mk 4 5 7 100 6 [(5, 6)], mk 5 9 12 100 7 [(9, 7), (12, 3)]],
+   [mk 6 0 20 400 2 [(0, 2), (6, 1)]],
+   [mk 7 0 30 5000 1 [(30, 0)]],
+   []]
+
+def opts : Opts := ⟨100, 1000000, 8, 4, 1000000⟩
+def move : Core := ⟨3, 4, 0, 30, [7], 5000⟩
+
+theorem tree_inv : Inv tree := invB_sound (by decide +kernel)
+
+theorem chooses_move : nextCompaction ieee opts tree [] = some move := by decide +kernel
+
+theorem chooses_merge_with_move_in_flight :
+    nextCompaction ieee opts tree [move] = some ⟨0, 2, 0, 20, [1, 2, 3, 4, 5, 6], 900⟩ := by decide +kernel
+
+theorem chooses_expanded_mandatory :
+    nextCompaction ieee { opts with mandFiles := 2 } tree [move] = some ⟨1, 2, 0, 20, [3, 6, 4, 5], 500⟩ := by
+  decide +kernel
+
+/-- the hypotheses of `nextCompaction_closed` / `_respects_ongoing` are satisfiable with a
+    compaction in flight, and the conclusions say something: six inputs, none of them file 7 -/
+example : Closed (tagTree tree ⟨0, 2, 0, 20, [1, 2, 3, 4, 5, 6], 900⟩) :=
+  Blue.Props.C01.nextCompaction_closed ieee opts tree [move] tree_inv chooses_merge_with_move_in_flight
+
+example : ∀ g ∈ [move], ∀ id ∈ [1, 2, 3, 4, 5, 6], id ∉ g.inputs :=
+  Blue.Props.C01.nextCompaction_respects_ongoing ieee opts tree [move] tree_inv
+    (by
+      intro g hg
+      simp only [List.mem_singleton] at hg
+      subst hg
+      exact nextCompaction_inputs_within_wf tree_inv chooses_move)
+    chooses_merge_with_move_in_flight
+
+example : Closed (tagTree tree ⟨1, 2, 0, 20, [3, 6, 4, 5], 500⟩) :=
+  Blue.Props.C01.nextCompaction_closed ieee _ tree [move] tree_inv chooses_expanded_mandatory
+
+/-- the expanded candidate is also an instance of `expand_candidate_closed` -/
+example : (candOver { opts with mandFiles := 2 } tree 1 (computeBounds tree 1 1 3) 1 500).inputs = [3, 6, 4, 5] := by
+  decide +kernel
+
+end Example
+
 /-! non-vacuity: a state with versions of one key in memtable, level 0 and level 1 passes the check -/
 example :
     let s : KState := { mem := [(1, 9)], imm := none,
@@ -119,6 +271,19 @@ end Blue.Props.C01
 #print axioms Blue.Props.C01.selector_slices_closed
 #print axioms Blue.Props.C01.trivial_move_closed
 #print axioms Blue.Props.C01.expansion_closed
+#print axioms Blue.Props.C01.compute_bounds_establishes_selection_ok
+#print axioms Blue.Props.C01.expand_candidate_closed
+#print axioms Blue.Props.C01.nextCompaction_closed
+#print axioms Blue.Props.C01.nextCompaction_keeps_newer_above
+#print axioms Blue.Props.C01.nextCompaction_respects_ongoing
+#print axioms Blue.Props.C01.nextCompaction_inputs_within
+#print axioms Blue.Props.C01.nextCompaction_within_limits
+#print axioms Blue.Props.C01.tree_invariant_check_sound
+#print axioms Blue.Props.C01.compute_bounds_loop_reaches_fixed_point
+#print axioms Blue.NextCompaction.nextCompaction_origin
+#print axioms Blue.ConstsTie.c01_selector_defaults
+#print axioms Blue.ConstsTie.c01_level_factor_expr
+#print axioms Blue.ConstsTie.c01_scale_dyadic
 #print axioms Blue.Spec.trivial_move_unrepaired_open
 #print axioms Blue.Spec.expansion_unrepaired_open
 #print axioms Blue.Spec.closed_of_cover
